@@ -152,3 +152,22 @@ func genGovDeposit(g *G) *Op {
 	return &Op{Signer: u, Kind: "gov.deposit", Msg: govv1.NewMsgDeposit(u.Addr, next-back, sdk.NewCoins(sdk.NewCoin(ptypes.Elys, sdkmath.NewInt(int64(g.Int("gov/depamt", 1, 2*GovMinDeposit))))))}
 }
 
+
+// genGovVoteDelegator: the genesis delegator – the account whose vote decides – votes on one of the most recent
+// proposals, so that proposals filed by users pass (or are vetoed) and get executed by the gov end-blocker too.
+func genGovVoteDelegator(g *G) *Op {
+	d := g.W.Delegator
+	if g.Busy[d.Addr.String()] {
+		return nil
+	}
+	next, err := g.W.App.GovKeeper.ProposalID.Peek(g.W.ReadCtx())
+	if err != nil || next <= 1 {
+		return nil
+	}
+	back := uint64(g.Int("gov/dvoteback", 1, 2))
+	if back >= next {
+		back = next - 1
+	}
+	opt := []govv1.VoteOption{govv1.OptionYes, govv1.OptionYes, govv1.OptionYes, govv1.OptionNo, govv1.OptionNoWithVeto}[g.Pick("gov/dopt", 5)]
+	return &Op{Signer: d, Kind: "gov.vote_delegator", Msg: govv1.NewMsgVote(d.Addr, next-back, opt, "")}
+}
